@@ -124,6 +124,43 @@ class StandardRequestHandler(ControlRequestHandler):
             skiplisted = functools.reduce(operator.__or__, (f(setup) for f in self._skiplist), Const(0))
             m.d.comb += interface.claim.eq(~skiplisted)
 
+            def handle_new_setup():
+                """ Dispatches a newly received setup packet. Used in every state: a new SETUP always starts
+                a new request [USB2.0: 8.5.3], so a request the host has abandoned (or that we have STALLed)
+                must not keep us from handling the next one. """
+
+                # If we've received a new setup packet, handle it.
+                with m.If(setup.received):
+
+                    # Start each request the way we'd start it from IDLE.
+                    m.d.usb += [
+                        get_descriptor_handler.start_position  .eq(0),
+                        self.interface.tx_data_pid             .eq(1)
+                    ]
+
+                    # If this request isn't ours to handle, whatever we were doing is over.
+                    m.next = 'IDLE'
+
+                    with m.If(~skiplisted):
+
+                        # Select which standard packet we're going to handler.
+                        with m.Switch(setup.request):
+
+                            with m.Case(USBStandardRequests.GET_STATUS):
+                                m.next = 'GET_STATUS'
+                            with m.Case(USBStandardRequests.CLEAR_FEATURE):
+                                m.next = 'CLEAR_FEATURE'
+                            with m.Case(USBStandardRequests.SET_ADDRESS):
+                                m.next = 'SET_ADDRESS'
+                            with m.Case(USBStandardRequests.SET_CONFIGURATION):
+                                m.next = 'SET_CONFIGURATION'
+                            with m.Case(USBStandardRequests.GET_DESCRIPTOR):
+                                m.next = 'GET_DESCRIPTOR'
+                            with m.Case(USBStandardRequests.GET_CONFIGURATION):
+                                m.next = 'GET_CONFIGURATION'
+                            with m.Default():
+                                m.next = 'UNHANDLED'
+
             with m.FSM(domain="usb"):
 
                 # IDLE -- not handling any active request
@@ -138,27 +175,7 @@ class StandardRequestHandler(ControlRequestHandler):
                     ]
 
                     # If we've received a new setup packet, handle it.
-                    with m.If(setup.received):
-
-                        with m.If(~skiplisted):
-
-                            # Select which standard packet we're going to handler.
-                            with m.Switch(setup.request):
-
-                                with m.Case(USBStandardRequests.GET_STATUS):
-                                    m.next = 'GET_STATUS'
-                                with m.Case(USBStandardRequests.CLEAR_FEATURE):
-                                    m.next = 'CLEAR_FEATURE'
-                                with m.Case(USBStandardRequests.SET_ADDRESS):
-                                    m.next = 'SET_ADDRESS'
-                                with m.Case(USBStandardRequests.SET_CONFIGURATION):
-                                    m.next = 'SET_CONFIGURATION'
-                                with m.Case(USBStandardRequests.GET_DESCRIPTOR):
-                                    m.next = 'GET_DESCRIPTOR'
-                                with m.Case(USBStandardRequests.GET_CONFIGURATION):
-                                    m.next = 'GET_CONFIGURATION'
-                                with m.Default():
-                                    m.next = 'UNHANDLED'
+                    handle_new_setup()
 
 
                 # GET_STATUS -- Fetch the device's status.
@@ -167,6 +184,7 @@ class StandardRequestHandler(ControlRequestHandler):
                     # TODO: handle reporting endpoint stall status
                     # TODO: copy the remote wakeup and bus-powered attributes from bmAttributes of the relevant descriptor?
                     self.handle_simple_data_request(m, transmitter, 0, length=2)
+                    handle_new_setup()
 
                 with m.State('CLEAR_FEATURE'):
                     # Provide an response to the STATUS stage.
@@ -177,8 +195,10 @@ class StandardRequestHandler(ControlRequestHandler):
                         stall_condition = \
                             (setup.recipient != USBRequestRecipient.ENDPOINT) | \
                             (setup.value     != USBStandardFeatures.ENDPOINT_HALT)
+                        # (Once we've stalled, the request is over.)
                         with m.If(stall_condition):
                             m.d.comb += handshake_generator.stall.eq(1)
+                            m.next = 'IDLE'
                         with m.Else():
                             m.d.comb += self.send_zlp()
 
@@ -193,15 +213,19 @@ class StandardRequestHandler(ControlRequestHandler):
                         # ... and then return to idle.
                         m.next = 'IDLE'
 
+                    handle_new_setup()
+
                 # SET_ADDRESS -- The host is trying to assign us an address.
                 with m.State('SET_ADDRESS'):
                     self.handle_register_write_request(m, interface.new_address, interface.address_changed)
+                    handle_new_setup()
 
 
                 # SET_CONFIGURATION -- The host is trying to select an active configuration.
                 with m.State('SET_CONFIGURATION'):
                     # TODO: stall if we don't have a relevant configuration
                     self.handle_register_write_request(m, interface.new_config, interface.config_changed)
+                    handle_new_setup()
 
 
                 # GET_DESCRIPTOR -- The host is asking for a USB descriptor -- for us to "self describe".
@@ -250,9 +274,14 @@ class StandardRequestHandler(ControlRequestHandler):
                         m.d.usb += expecting_ack.eq(0)
                         m.next = 'IDLE'
 
+                    with m.If(setup.received):
+                        m.d.usb += expecting_ack.eq(0)
+                    handle_new_setup()
+
                 # GET_CONFIGURATION -- The host is asking for the active configuration number.
                 with m.State('GET_CONFIGURATION'):
                     self.handle_simple_data_request(m, transmitter, interface.active_config)
+                    handle_new_setup()
 
 
                 # UNHANDLED -- we've received a request we're not prepared to handle
@@ -263,5 +292,7 @@ class StandardRequestHandler(ControlRequestHandler):
                     with m.If(interface.data_requested | interface.status_requested):
                         m.d.comb += handshake_generator.stall.eq(1)
                         m.next = 'IDLE'
+
+                    handle_new_setup()
 
         return m
